@@ -129,6 +129,23 @@ PROPS = {
                                                 "codec.decode/decode.pk_bytes.off-curve", "codec.asn1_enc/asn1.enc.x-lead0x1", "codec.asn1_enc/asn1.enc.y-lead0x1", "codec.asn1_dec/asn1.dec.openssl"]})],
         assumptions=["SM2Codec.tla: SEC1 / hex / SPKI / PKCS#8 templates / PEM / GM/T 0009 DER, anchored by OpenSSL-made documents (committed corpus, not a live OpenSSL)"],
     ),
+    "C11": dict(
+        level="model_checking",
+        rule="events = point operations on Jacobian/Montgomery representations, field operations on boundary/random canonical operands, all 8160 fixed-base table entries; "
+             "distinct = distinct (operation, operands); non-trivial = all",
+        models=[dict(module="MC_BigNat", cfg="MC_BigNat_q", tier="quick", about="BigNat Java override = pure TLA+ definitions on boundary operands (reduced set)"),
+                dict(module="MC_BigNat", tier="thorough", timeout=1500, about="BigNat Java override = pure TLA+ definitions on boundary/random operands"),
+                dict(module="MC_JacobianImpl", cfg="MC_JacobianImpl_add", about="L1 transcription of point_add/point_dbl on the F_23 toy curve = affine group law for all 124 609 pairs of Jacobian representations"),
+                dict(module="MC_JacobianImpl", cfg="MC_JacobianImpl_neg", expect="violation", about="negative: the pinned commit's point_add (no same-point-different-Z case) must be refuted"),
+                dict(module="MC_JacobianImpl", cfg="MC_JacobianImpl_mulq", tier="thorough", timeout=1500, about="4-bit window scalar_mul = [k]P for every representation x every 8-bit scalar (F_11 curve, n = 7: scalars up to 36n)"),
+                dict(module="MC_JacobianImpl", cfg="MC_JacobianImpl_mulneg", expect="violation", about="negative: window multiplication over the unfixed addition must be refuted"),
+                dict(module="MC_Mont", about="register-level Montgomery mul / add / sub with R = 2^7: every prime in (64,128) x every operand pair")],
+        stages=[dict(suite="sm2ec", trace="TraceSM2",
+                     required_classes={"both": ["ec.add/add.P=Q", "ec.add/add.P=Q.diffZ", "ec.add/add.P=-Q", "ec.add/add.O+Q", "ec.add/add.generic", "ec.smul/smul.k=n", "ec.smul/smul.k>n",
+                                                "ec.smul/smul.k=0", "ec.gmul/gmul.k<n", "ec.valid/valid.off", "ec.table/table.entry", "ec.table/table.row-base",
+                                                "fp.op/fp.mul.near-modulus", "fp.op/fp.add.near-2^256-m", "fn.op/fn.add.near-modulus"]})],
+        assumptions=["Weierstrass.tla is the affine group law; verdicts are on denotations (X/Z^2, Y/Z^3 of the Montgomery-decoded coordinates)", "BigNat Java override (cross-checked by MC_BigNat)"],
+    ),
 }
 
 # what MANIFEST.json says about each claimed check
@@ -220,11 +237,20 @@ MANIFEST_TEXT["C19"] = dict(
     note="Trusted: as C03, plus the committed OpenSSL corpus (not a live OpenSSL). For DER/PEM inputs outside the canonical framing the specification only requires 'no panic; a decoded key is valid'.",
     technique="TLA+ trace validation with TLC (codec specification anchored to OpenSSL documents), searched boundary ephemeral points via the RNG hook",
 )
+MANIFEST_TEXT["C11"] = dict(
+    text="L0 = the affine group law of Weierstrass.tla. E1: the L1 transcription of p256_ecc.rs (point_add incl. special cases, point_dbl, 4-bit window scalar_mul, is_valid) is model-checked "
+         "against L0 on toy curves for every pair of Jacobian representations and every scalar incl. 0, n and values above n; Montgomery mul/add/sub at toy word size for all primes and "
+         "operands; negative configurations (the pinned commit's point_add) are refuted. At real size every recorded point operation (equal / opposite / re-randomised / infinity operands, "
+         "scalars 0, 1, n-1, n, n+1..n+40, 2^256-1, single-byte scalars through g_mul), every field operation mod p and mod n on boundary-limb / near-modulus / random canonical operands, "
+         "and ALL 32x255 fixed-base table entries (walked by the recurrence entry(i,b) = entry(i,b-1) + entry(i,1), entry(i+1,1) = [256]entry(i,1)) are judged on denotations.",
+    note="Trusted: TLC/SANY, BigNat Java override (cross-checked by MC_BigNat in the same check), the hook wrappers exposing crate-private field functions and the table. "
+         "Nothing is claimed proved for all 256-bit operands; real-size coverage is boundary/witness/random conformance.",
+    technique="TLC exhaustive toy models of the transcribed Jacobian/Montgomery code + TLA+ trace validation on denotations at real size (table exhaustive)",
+)
 
 NOT_APPLICABLE = {
     "C09": "machinery for this property is not built yet in this round (specification module in progress); not claimed until its check is sound",
     "C10": "machinery for this property is not built yet in this round (specification module in progress); not claimed until its check is sound",
-    "C11": "machinery for this property is not built yet in this round (specification module in progress); not claimed until its check is sound",
     "C12": "machinery for this property is not built yet in this round (specification module in progress); not claimed until its check is sound",
     "C13": "machinery for this property is not built yet in this round (specification module in progress); not claimed until its check is sound",
     "C14": "machinery for this property is not built yet in this round (specification module in progress); not claimed until its check is sound",
